@@ -162,3 +162,160 @@
             }
         }
     }
+    // (d) the verifier's w'_approx equals w - c*s2 + c*t0 (mod q), coefficient by coefficient
+    pub proof fn lemma_ntt_add2(p: Seq<int>, x: Seq<int>, y: Seq<int>, j: int)
+        requires p.len() == 256, x.len() == 256, y.len() == 256, 0 <= j < 256, forall|t: int| 0 <= t < 256 ==> cong(#[trigger] p[t], x[t] + y[t]),
+        ensures cong(spec_ntt(p)[j], spec_ntt(x)[j] + spec_ntt(y)[j]),
+    {
+        let r = ntt_root(j);
+        let s = padd(x, y);
+        assert forall|t: int| 0 <= t < 256 implies cong(#[trigger] p[t], s[t]) by { }
+        lemma_ntt_coef_cong(p, s, j);
+        lemma_ntt_is_eval(s, j); lemma_ntt_is_eval(x, j); lemma_ntt_is_eval(y, j);
+        lemma_sev1_add(x, y, 256, r);
+        lemma_cong_add(spec_ntt(x)[j], peval(x, r), spec_ntt(y)[j], peval(y, r));
+        lemma_cong_sym(spec_ntt(x)[j] + spec_ntt(y)[j], peval(x, r) + peval(y, r));
+        lemma_cong_trans(spec_ntt(p)[j], spec_ntt(s)[j], peval(s, r));
+        lemma_cong_trans(spec_ntt(p)[j], peval(s, r), spec_ntt(x)[j] + spec_ntt(y)[j]);
+    }
+    pub proof fn lemma_cmul_len2(cs: Seq<int>, shm: [i32; 256])
+        ensures cmul(cs, shm).len() == 256, forall|n: int| 0 <= n < 256 ==> 0 <= #[trigger] cmul(cs, shm)[n] < Q,
+    {
+        reveal(spec_invntt);
+        assert forall|n: int| 0 <= n < 256 implies 0 <= #[trigger] cmul(cs, shm)[n] < Q by {
+            let v = intt_layers(cmul_seq(cs, shm), 0);
+            lemma_cong_mod(8_347_681 * v[n]);
+        }
+    }
+    // NTT(c * s)[j] == NTT(c)[j] * NTT(s)[j] for c*s as the signer / verifier compute it
+    pub proof fn lemma_cmul_ntt(cs: Seq<int>, shm: [i32; 256], s: Seq<int>, j: int)
+        requires 0 <= j < 256, forall|n: int| 0 <= n < 256 ==> mont_of(#[trigger] shm[n] as int, spec_ntt(s)[n]),
+        ensures cong(spec_ntt(cmul(cs, shm))[j], spec_ntt(cs)[j] * spec_ntt(s)[j]),
+    {
+        lemma_cmul_len(cs, shm);
+        lemma_ntt_invntt(cmul_seq(cs, shm));
+        reveal(cmul_seq);
+        assert(cmul_seq(cs, shm)[j] == spec_ntt(cs)[j] * demont(shm[j] as int));
+        lemma_demont_of_mont(shm[j] as int, spec_ntt(s)[j]);
+        lemma_cong_refl(spec_ntt(cs)[j]);
+        lemma_cong_mul(spec_ntt(cs)[j], spec_ntt(cs)[j], demont(shm[j] as int), spec_ntt(s)[j]);
+        lemma_cong_trans(spec_ntt(cmul(cs, shm))[j], cmul_seq(cs, shm)[j], spec_ntt(cs)[j] * spec_ntt(s)[j]);
+    }
+    pub proof fn lemma_dotz_lin<const K: usize, const L: usize>(a: [[T; L]; K], zs: Seq<Seq<int>>, ys: Seq<Seq<int>>, s1v: Seq<Seq<int>>, sc: int, k: int, n: int, j: int)
+        requires 0 <= j <= L, forall|jj: int| 0 <= jj < L ==> cong(#[trigger] spec_ntt(zs[jj])[n], spec_ntt(ys[jj])[n] + sc * spec_ntt(s1v[jj])[n]),
+        ensures cong(dotz(a, zs, k, n, j), dotz(a, ys, k, n, j) + sc * dotz(a, s1v, k, n, j)),
+        decreases j
+    {
+        reveal_with_fuel(dotz, 2);
+        if j == 0 { assert(sc * 0 == 0); lemma_cong_refl(0); } else {
+            lemma_dotz_lin(a, zs, ys, s1v, sc, k, n, j - 1);
+            let av = a[k][j - 1].0[n] as int;
+            let nz = spec_ntt(zs[j - 1])[n]; let ny = spec_ntt(ys[j - 1])[n]; let ns = spec_ntt(s1v[j - 1])[n];
+            lemma_cong_refl(av);
+            lemma_cong_mul(av, av, nz, ny + sc * ns);
+            lemma_cong_add(dotz(a, zs, k, n, j - 1), dotz(a, ys, k, n, j - 1) + sc * dotz(a, s1v, k, n, j - 1), av * nz, av * (ny + sc * ns));
+            let dy = dotz(a, ys, k, n, j - 1); let d1 = dotz(a, s1v, k, n, j - 1);
+            assert(dy + sc * d1 + av * (ny + sc * ns) == (dy + av * ny) + sc * (d1 + av * ns)) by (nonlinear_arith);
+        }
+    }
+    pub proof fn lemma_c01_alg(wb: int, dz: int, dy: int, sc: int, d1: int, dm: int, n2: int, n0: int)
+        requires wb == dz - sc * dm, cong(dz, dy + sc * d1), cong(dm, d1 + n2 - n0),
+        ensures cong(wb, dy - sc * n2 + sc * n0),
+    {
+        lemma_cong_refl(sc);
+        lemma_cong_mul(sc, sc, dm, d1 + n2 - n0);
+        lemma_cong_add(dz, dy + sc * d1, sc * dm, sc * (d1 + n2 - n0));
+        assert((dy + sc * d1) - sc * (d1 + n2 - n0) == dy - sc * n2 + sc * n0) by (nonlinear_arith);
+    }
+    pub proof fn lemma_wapprox<const K: usize, const L: usize>(a: [[T; L]; K], pk: PublicKey<K, L>, sk: PrivateKey<K, L>, eta: int,
+            ys: Seq<Seq<int>>, zs: Seq<Seq<int>>, cs: Seq<int>, s1v: Seq<Seq<int>>, s2v: Seq<Seq<int>>, k: int)
+        requires 0 <= k < K, 1 <= K <= 8, 1 <= L <= 8, cs.len() == 256,
+            ys.len() == L, zs.len() == L, forall|l: int| 0 <= l < L ==> (#[trigger] ys[l]).len() == 256, forall|l: int| 0 <= l < L ==> (#[trigger] zs[l]).len() == 256,
+            sk_coefs_ok(sk, eta, s1v, s2v, kg_t0(a, s1v, s2v)), pk_coefs_ok(pk, kg_t1(a, s1v, s2v)),
+            forall|l: int, n: int| 0 <= l < L && 0 <= n < 256 ==> cong(#[trigger] zs[l][n], ys[l][n] + cmul(cs, sk.s_1_hat_mont[l].0)[n]),
+        ensures forall|n: int| 0 <= n < 256 ==> #[trigger] vfy_w(a, zs, cs, pk.t1_d2_hat_mont, k)[n]
+            == (sgn_w(a, ys, k)[n] - cmul(cs, sk.s_2_hat_mont[k].0)[n] + cmul(cs, sk.t_0_hat_mont[k].0)[n]) % (Q as int),
+    {
+        let t0v = kg_t0(a, s1v, s2v); let t1v = kg_t1(a, s1v, s2v);
+        let w = sgn_w(a, ys, k);
+        let cs2 = cmul(cs, sk.s_2_hat_mont[k].0); let ct0 = cmul(cs, sk.t_0_hat_mont[k].0);
+        lemma_cmul_len2(cs, sk.s_2_hat_mont[k].0); lemma_cmul_len2(cs, sk.t_0_hat_mont[k].0);
+        lemma_wbar_at(a, ys, k, 0);
+        lemma_ntt_invntt(sgn_wbar_seq(a, ys, k));
+        assert(w.len() == 256);
+        let p = Seq::new(256, |m: int| w[m] - cs2[m] + ct0[m]);
+        // the key-generation identity in the NTT domain: 8192 * NTT(t1_k) == A_k . NTT(s1) + NTT(s2_k) - NTT(t0_k)
+        let d = sgn_w(a, s1v, k);
+        lemma_wbar_at(a, s1v, k, 0);
+        lemma_ntt_invntt(sgn_wbar_seq(a, s1v, k));
+        assert(d.len() == 256);
+        assert(s2v[k].len() == 256 && t0v[k].len() == 256 && t1v[k].len() == 256);
+        let p8 = pscale(8192, t1v[k]);
+        lemma_power2round_all();
+        assert forall|m: int| 0 <= m < 256 implies cong(#[trigger] p8[m], d[m] + s2v[k][m] - t0v[k][m]) by {
+            let t = kg_t(a, s1v, s2v, k, m);
+            lemma_cong_mod(d[m] + s2v[k][m]);
+            assert(0 <= t < Q);
+            assert(t1v[k][m] == spec_power2round(t).0 && t0v[k][m] == spec_power2round(t).1);
+            assert(t == 8192 * t1v[k][m] + t0v[k][m]);
+            assert(p8[m] == t - t0v[k][m]);
+            lemma_cong_refl(t0v[k][m]);
+            lemma_cong_add(t, d[m] + s2v[k][m], t0v[k][m], t0v[k][m]);
+        }
+        let vb = vfy_wbar_seq(a, zs, cs, pk.t1_d2_hat_mont, k);
+        assert forall|n: int| 0 <= n < 256 implies cong(#[trigger] vb[n], spec_ntt(p)[n]) by {
+            let sc = spec_ntt(cs)[n];
+            // NTT(z_j)[n] == NTT(y_j)[n] + sc * NTT(s1_j)[n]
+            assert forall|jj: int| 0 <= jj < L implies cong(#[trigger] spec_ntt(zs[jj])[n], spec_ntt(ys[jj])[n] + sc * spec_ntt(s1v[jj])[n]) by {
+                let cm = cmul(cs, sk.s_1_hat_mont[jj].0);
+                lemma_cmul_len2(cs, sk.s_1_hat_mont[jj].0);
+                assert forall|t: int| 0 <= t < 256 implies cong(#[trigger] zs[jj][t], ys[jj][t] + cm[t]) by { }
+                lemma_ntt_add2(zs[jj], ys[jj], cm, n);
+                assert forall|m: int| 0 <= m < 256 implies mont_of(#[trigger] sk.s_1_hat_mont[jj].0[m] as int, spec_ntt(s1v[jj])[m]) by { }
+                lemma_cmul_ntt(cs, sk.s_1_hat_mont[jj].0, s1v[jj], n);
+                lemma_cong_refl(spec_ntt(ys[jj])[n]);
+                lemma_cong_add(spec_ntt(ys[jj])[n], spec_ntt(ys[jj])[n], spec_ntt(cm)[n], sc * spec_ntt(s1v[jj])[n]);
+                lemma_cong_trans(spec_ntt(zs[jj])[n], spec_ntt(ys[jj])[n] + spec_ntt(cm)[n], spec_ntt(ys[jj])[n] + sc * spec_ntt(s1v[jj])[n]);
+            }
+            lemma_dotz_lin(a, zs, ys, s1v, sc, k, n, L as int);
+            // demont(stored t1) == 8192 * NTT(t1_k)[n] == d1 + NTT(s2_k)[n] - NTT(t0_k)[n]
+            let dm = demont(pk.t1_d2_hat_mont[k].0[n] as int);
+            let d1 = dotz(a, s1v, k, n, L as int);
+            let n2 = spec_ntt(s2v[k])[n]; let n0 = spec_ntt(t0v[k])[n];
+            lemma_ntt_scale(8192, p8, t1v[k], n);
+            lemma_ntt_lin3(p8, d, s2v[k], t0v[k], n);
+            lemma_wbar_at(a, s1v, k, n);
+            assert(cong(spec_ntt(d)[n], d1));
+            lemma_cong_refl(n2); lemma_cong_refl(n0);
+            lemma_cong_add(spec_ntt(d)[n], d1, n2, n2);
+            lemma_cong_add(spec_ntt(d)[n] + n2, d1 + n2, n0, n0);
+            lemma_cong_sym(spec_ntt(p8)[n], 8192 * spec_ntt(t1v[k])[n]);
+            lemma_cong_trans(8192 * spec_ntt(t1v[k])[n], spec_ntt(p8)[n], spec_ntt(d)[n] + n2 - n0);
+            lemma_cong_trans(8192 * spec_ntt(t1v[k])[n], spec_ntt(d)[n] + n2 - n0, d1 + n2 - n0);
+            assert(cong(dm, 8192 * spec_ntt(t1v[k])[n]));
+            lemma_cong_trans(dm, 8192 * spec_ntt(t1v[k])[n], d1 + n2 - n0);
+            // the verifier's NTT-domain value
+            reveal(vfy_wbar);
+            let dz = dotz(a, zs, k, n, L as int); let dy = dotz(a, ys, k, n, L as int);
+            assert(vb[n] == dz - sc * dm);
+            lemma_c01_alg(vb[n], dz, dy, sc, d1, dm, n2, n0);
+            // NTT(p)[n] == NTT(w)[n] + NTT(c t0)[n] - NTT(c s2)[n]
+            assert forall|t: int| 0 <= t < 256 implies cong(#[trigger] p[t], w[t] + ct0[t] - cs2[t]) by { lemma_cong_refl(p[t]); }
+            lemma_ntt_lin3(p, w, ct0, cs2, n);
+            lemma_wbar_at(a, ys, k, n);
+            assert(cong(spec_ntt(w)[n], dy));
+            assert forall|m: int| 0 <= m < 256 implies mont_of(#[trigger] sk.s_2_hat_mont[k].0[m] as int, spec_ntt(s2v[k])[m]) by { }
+            assert forall|m: int| 0 <= m < 256 implies mont_of(#[trigger] sk.t_0_hat_mont[k].0[m] as int, spec_ntt(t0v[k])[m]) by { }
+            lemma_cmul_ntt(cs, sk.s_2_hat_mont[k].0, s2v[k], n);
+            lemma_cmul_ntt(cs, sk.t_0_hat_mont[k].0, t0v[k], n);
+            lemma_cong_add(spec_ntt(w)[n], dy, spec_ntt(ct0)[n], sc * n0);
+            lemma_cong_add(spec_ntt(w)[n] + spec_ntt(ct0)[n], dy + sc * n0, spec_ntt(cs2)[n], sc * n2);
+            lemma_cong_trans(spec_ntt(p)[n], spec_ntt(w)[n] + spec_ntt(ct0)[n] - spec_ntt(cs2)[n], dy + sc * n0 - sc * n2);
+            lemma_cong_sym(spec_ntt(p)[n], dy + sc * n0 - sc * n2);
+            assert(dy - sc * n2 + sc * n0 == dy + sc * n0 - sc * n2);
+            lemma_cong_trans(vb[n], dy - sc * n2 + sc * n0, spec_ntt(p)[n]);
+        }
+        lemma_spec_ntt_len(p);
+        lemma_invntt_cong(vb, spec_ntt(p));
+        lemma_invntt_ntt(p);
+    }
